@@ -3,16 +3,23 @@
 mod areader;
 mod c01;
 mod c02;
+mod c03;
 mod c04;
 mod c20;
 
 use hvcommon::args::Args;
+
+#[global_allocator]
+static GLOBAL: hvcommon::alloc::Counting = hvcommon::alloc::Counting;
 
 fn main() {
     let args = Args::from_env();
     match args.cmd() {
         "c01" => c01::main(&args),
         "c02" => c02::main(&args),
+        "c03" => c03::main(&args),
+        "c03-worker" => c03::worker(&args),
+        "c03-one" => c03::one(&args),
         "c04" => c04::main(&args),
         "c20" => c20::main(&args),
         other => {
